@@ -255,7 +255,7 @@ def run_group(pid, g, scratch, tier, repo, keep_dir=None, trace=False, only_prop
         tmo = tmo or TIMEOUT[tier]
         if os.environ.get("SSW_TIMEOUT"):
             tmo = int(os.environ["SSW_TIMEOUT"])
-        backends = g.get("backends", [[], ["--sat-solver", "cadical"]])
+        backends = g.get("backends", [["--sat-solver", "cadical"], []])   # CaDiCaL first (3-10x faster here), MiniSat on time-out
         if trace:
             # counterexample extraction is best effort: one back end, short time limit
             backends = backends[:1]
